@@ -69,19 +69,27 @@ CHECKS = {
         note=TB + 'Ignore-widening is checked by the direct oracle only.',
         technique='Coq proof of soundness of the partial evaluator model + structural differential correspondence + completion oracle'),
     'C07': dict(
-        level='exploration', design='§6 C07',
-        text='No Coq theorem yet (parser model under construction). Decided for now by an independent oracle: a reference renderer (py/render.py, the '
-             'grammar\'s own unparse: fully parenthesised and minimal, three layouts incl. line/block comments, random equivalent spellings) -> cedar-go '
-             'parser -> the AST must be the rendered one; ~60 texts outside the grammar must be rejected.',
-        note='Trusted: the reference renderer and the harness. Differential exploration, not proof.',
-        technique='differential exploration against an independent reference renderer (Coq parser model pending)'),
+        level='proof', design='§0.2, §6 C07',
+        text='Model of the tokenizer (Impl/Tokenizer.v) and of the recursive-descent parser over token lists (Impl/Parser.v). Theorems (Properties/C07.v): '
+             'for every expression / policy and EVERY placement of redundant parentheses (fully parenthesised, minimal, anything between) the tokens of the '
+             'rendering parse to exactly that tree (literal values of set / record / extension type as the constructor expressions that denote them); string '
+             'and pattern literals read back for every choice of escapes; the parser terminates on every token list. Correspondence: Go parser = model on '
+             '10^4 texts incl. ~230 texts outside the grammar that must be rejected (reserved word x identifier position matrix, chained relations, '
+             'duplicates, bad escapes). Direct oracle: independent reference renderer (py/render.py) in three layouts.',
+        note=TB + 'Layout (blanks, comments) is handled by the tokenizer: its independence of delivery and exact token texts are C18. Rejection of texts outside the '
+                  'grammar is decided by the correspondence and the reject corpus, not by a theorem.',
+        technique='Coq proof (parse o print = id for every parenthesisation, ~2400 lines) + differential correspondence of the parser model + independent reference renderer'),
     'C08': dict(
-        level='exploration', design='§6 C08',
-        text='No Coq theorem yet (printer/parser model under construction). Direct oracle on the Go code: rendering parses; effect, annotations, scope '
-             'preserved; reparsed policy evaluates identically on 4 environments; second rendering byte-identical; policy-set / list / stream order. '
-             'Population: every (parent, child, position) operator pairing, negative literals, keyword / non-identifier names, escapes, extension values.',
-        note='Trusted: the harness oracle. Found and repaired F9, F14, F28, F28b, F36; F16/F27/F30 are known findings.',
-        technique='Go-vs-Go round-trip exploration over a structured policy population (Coq printer/parser model pending)'),
+        level='proof', design='§0.2, §6 C08',
+        text='Model of cedar_marshal.go + Value.MarshalCedar (Impl/Printer.v, exact bytes and token list) and of the parser (Impl/Parser.v). Theorems '
+             '(Properties/C08.v): the tokens of the rendering of every well-formed policy parse back to that policy (effect, annotations, scopes, conditions; '
+             'value literals in the normal form of the text syntax); documents of several policies parse back in order. Correspondence: MarshalCedar bytes = '
+             'model bytes (escaper tables read off the code); parser = model. Direct oracle on the Go code: rendering parses, same head, tree identity modulo the '
+             'normal form with a search for a distinguishing environment, evaluation on 4 environments, byte fixpoint, returned bytes not aliased, '
+             'set / list / stream order.',
+        note=TB + 'That the normal form preserves evaluation, and that the rendered TEXT lexes to the token list of the model, are decided by the oracle and the '
+                  'printpol / tokens correspondences (plus C18), not by theorems. F27 / F30 / F16 are known findings.',
+        technique='Coq proof (parser reads back the printer model) + byte-level differential correspondence of the printer + Go round-trip oracle'),
     'C09': dict(
         level='proof', design='§0.2, §6 C09',
         text='Model of internal/json on JSON trees (Impl/PolicyJson.v: MarshalJSON, UnmarshalJSON + ToNode, scopes, policies; values via Impl/ValueJson.v). '
@@ -94,13 +102,15 @@ CHECKS = {
                   'decided by the direct oracle only.',
         technique='Coq proof of the JSON-tree codec round trip + tree-level differential correspondence + Go round-trip oracle'),
     'C10': dict(
-        level='exploration', design='§6 C10',
-        text='Crash / hang / stack exhaustion are runtime behaviour no Gallina model can exhibit (Gallina functions are total by construction): decided by '
-             'structure-aware mutation of valid documents of every decoder, raw noise and 10^5-deep (thorough: 10^6) nestings, each case in a '
-             'recover()-guarded goroutine with a timeout in a child process; every accepted value is pushed through every encoder, the authorizer and '
-             'the validator.',
-        note='Trusted: the harness and its crash attribution. Found and repaired F10, F11, F12; F13 (no depth limit, 10^6 levels) is a known finding.',
-        technique='fault-injection style exploration of decoders in a guarded child process'),
+        level='exploration', design='§0.2, §6 C10',
+        text='Runtime property (no panic, no stack overflow, no endless loop): explored in a guarded child process with timeouts: structure-aware mutants of every '
+             'JSON format, byte mutants of every text format, raw noise, 10^5..10^6-deep nestings and long chains of every recursive construct, short documents '
+             'whose decoding cost must not explode (sibling junk keys, case-fold confusable keys). Every accepted value is passed to every encoder and the authorizer. '
+             'Model half, proved (Properties/C10.v): every modelled decoder - streaming tokenizer, Cedar text parser, string / pattern unquoting, policy JSON, '
+             'schema resolution - terminates on EVERY input with fuel linear in its size.',
+        note='Trusted: the harness (recover-guarded goroutine, child process, timeouts). Panics and stack overflows are not representable in the Gallina models, '
+             'hence level exploration. Found and repaired F10, F11, F12, F39; F13 (stack overflow on 10^6-deep input) is a known finding.',
+        technique='guarded runtime exploration + Coq termination proofs for the modelled decoders'),
     'C11': dict(
         level='proof', design='§6 C11',
         text='Theorems: veq is reflexive, symmetric (on canonical values), transitive and separates the ten types; mk_set builds exactly the distinct '
@@ -145,12 +155,15 @@ CHECKS = {
         note='Trusted: the schema/policy/data generators and the harness. Found and repaired F20, F24, F25; F29 is a known finding.',
         technique='soundness oracle over generated schemas, policies and conforming data (Coq soundness proof of a fragment pending)'),
     'C16': dict(
-        level='exploration', design='§6 C16',
-        text='Runtime property (termination / no crash): all 512 entity-type parent graphs and all 512 common-type reference graphs on 3 names, sampled '
-             'action-group graphs, random full-featured schemas; each resolved and used to validate policies (incl. set / record / extension literals '
-             'as JSON decoding produces), entities and requests in both modes, in a guarded child process with a timeout.',
-        note='Trusted: the harness. Found and repaired F21, F22.',
-        technique='exhaustive small-graph exploration in a guarded child process (Coq termination model pending)'),
+        level='proof', design='§0.2, §6 C16',
+        text='Model of resolved.Resolve (registration, RFC 70 shadowing check, Kahn cycle detection, type-reference resolution with the namespace rules, '
+             'action-membership DFS) and of the validator\'s isEntityDescendant (Impl/SchemaResolve.v). Theorems (Properties/C16.v): the cycle check is sound; '
+             'resolution of every type terminates once it passes; Resolve returns a verdict on EVERY schema AST; the descendant search terminates on every '
+             'hierarchy and is exact. Correspondence: Go Resolve verdict and resolved types = model on ~4000 parsed schemas (text and JSON born, names with colons). '
+             'Runtime oracle: all small parent / common-type graphs over one and two namespaces, random schemas, each resolved and used for validation in a guarded child.',
+        note=TB + 'The proof of resolve_type_terminates exposed F40 (namespace re-derived from the qualified name; stack overflow on a JSON schema name with a colon), '
+                  'repaired in /repo; the model mirrors the repaired code. The validator beyond isEntityDescendant is covered by the runtime oracle only.',
+        technique='Coq termination / soundness proofs of the resolver model + AST-level differential correspondence + exhaustive small-graph runtime exploration'),
     'C17': dict(
         level='exploration', design='§6 C17',
         text='Direct oracle: generated schema texts and JSON schemas (namespaces, common types, nested optional records, sets, entity / extension references, '
@@ -212,7 +225,7 @@ def main():
         setup_cmd='python3 py/check.py --setup',
         hooks=dict(guard='verif', enable='go build -tags verif (harness/build.sh)',
                    baseline_off_cmd='cd /repo && go test -mod=mod -json -vet=off -count=1 -timeout 25m ./...',
-                   source_commits=['e355874', '9eabaaf'], add_only=True),
+                   source_commits=['e355874', '9eabaaf', '2b580c9'], add_only=True),
         engines=[dict(name='coq-proof+correspondence', path='py/check.py',
                       serves_properties=sorted(CHECKS),
                       kind_free_text='Coq 8.16 development under coq/ (model + theorems), extracted to OCaml (ocaml/), compared with the Go '
